@@ -27,66 +27,72 @@ for _fn, _params in (
              canaries={"unreachable": "False"})
 
 
-def _side(ctx, P, res, memb, i=None):
-    """the clauses for one side; with `i`: the loop invariant after the first i groups (K = list of group names)"""
+def _clauses(ctx, P, res, memb, i=None):
+    """the clauses for one side.  Without `i`: the postconditions.  With `i`: the loop invariant after the first i groups
+    (K = list of group names), which speaks about the ghost map `owner` (glyph -> full name of the kept group it is in)
+    instead of composing / decomposing group names (no string reasoning under quantifiers)."""
     G = f"{ctx}.font.groups"
     gs = f"{ctx}.glyphSet"
-    pr = f"({G}[{{n}}] & {gs})"  # members of group n that are exported glyphs
+    T = len(P)
+    pr = "(" + G + "[{n}] & " + gs + ")"  # members of group n that are exported glyphs
     cl = {
         # every kept group is a prefixed UFO group with at least one exported member; its class is exactly the exported
         # members, sorted
         "kept": f"all(n.startswith('{P}') and n in {G} and {pr.format(n='n')} != set() and {res}[n] == sorted({pr.format(n='n')}) for n in {res})",
-        # membership map -> kept group: a glyph's entry names a kept group that really contains it
-        "member-sound": f"all(('{P}' + {memb}[g]) in {res} and g in {G}['{P}' + {memb}[g]] and g in {gs} for g in {memb})",
-        # kept group -> membership map: every exported member of a kept group is mapped to that group (hence the kept
-        # groups of one side are pairwise disjoint)
-        "member-complete": f"all(all(implies(g in {gs}, g in {memb} and {memb}[g] == n[{len(P)}:]) for g in {G}[n]) for n in {res})",
     }
     if i is None:
+        # every exported member of a kept group is mapped to that group's truncated name ...
+        cl["member-complete"] = f"all(all(implies(g in {gs}, g in {memb} and {memb}[g] == n[{T}:]) for g in {G}[n]) for n in {res})"
+        # ... and every entry of the membership map comes from a kept group containing the glyph
+        cl["member-sound"] = f"all(g in {gs} and any(g in {G}[n] and n[{T}:] == {memb}[g] for n in {res}) for g in {memb})"
+        # the kept groups of one side are pairwise disjoint: "the group of a glyph" is well defined
+        cl["disjoint"] = f"all(all(implies(n != m, all(not (g in {gs} and g in {G}[m]) for g in {G}[n])) for m in {res}) for n in {res})"
         # a prefixed group with exported members is dropped only if it overlaps a kept one
         cl["dropped-overlap"] = f"all(implies(n.startswith('{P}') and {pr.format(n='n')} != set(), n in {res} or ({pr.format(n='n')} & set({memb})) != set()) for n in {G})"
-        cl["disjoint"] = f"all(all(implies(n != m, {pr.format(n='n')} & {pr.format(n='m')} == set()) for m in {res}) for n in {res})"
     else:
+        cl["own-dom"] = f"all(g in {memb} for g in owner) and all(g in owner for g in {memb})"
+        cl["own-sound"] = f"all(owner[g] in {res} and g in {G}[owner[g]] and g in {gs} and {memb}[g] == owner[g][{T}:] for g in owner)"
+        cl["own-complete"] = f"all(all(implies(g in {gs}, g in owner and owner[g] == n) for g in {G}[n]) for n in {res})"
         cl["dropped-overlap"] = f"all(implies(K[a].startswith('{P}') and {pr.format(n='K[a]')} != set(), K[a] in {res} or ({pr.format(n='K[a]')} & set({memb})) != set()) for a in range({i}))"
     return cl
 
 
-def _groups_contract(target, ctx, params):
-    post = {}
-    for P, k, m in ((P1, 0, "side1Membership"), (P2, 1, "side2Membership")):
-        for nm, c in _side(ctx, P, f"result[{k}]", f"{ctx}.{m}").items():
-            post[f"{nm}.{k + 1}"] = c
-    inv = {}
-    for P, k, m in ((P1, 1, "side1Membership"), (P2, 2, "side2Membership")):
-        for nm, c in _side(ctx, P, f"side{k}Groups", m, i="i").items():
-            inv[f"{nm}.{k}"] = c
-
-    def memb_loop(k):
-        M, M0 = f"side{k}Membership", f"m{k}0"
-        return Loop(done="D", invariants={
-            "dom": f"set({M}) == set({M0}) | D",
-            "val": f"all({M}[g] == (name_truncated if g in D else {M0}[g]) for g in {M})",
-        })
-
+def _groups_contract(target, ctx, params, k):
+    """one contract variant per side k (1: public.kern1 / first glyph, 2: public.kern2 / second glyph): the two halves of
+    the loop body are independent, and each proof only carries its own side's invariants"""
+    P, m = (P1, "side1Membership") if k == 1 else (P2, "side2Membership")
+    M = f"side{k}Membership"
+    memb_loop = Loop(done="D", invariants={
+        "old-kept": f"all(g in {M} and {M}[g] == m0[g] for g in m0) and all(g in owner and owner[g] == o0[g] for g in o0)",
+        "new-added": f"all(g in {M} and {M}[g] == name_truncated and g in owner and owner[g] == name for g in D)",
+        "nothing-else": f"all(g in m0 or g in D for g in {M}) and all(g in o0 or g in D for g in owner)",
+    })
     return contract(
         target,
+        name=f"side{k}",
         props=["C05"],
         params=params,
         returns=Tuple(GROUPS, GROUPS),
         modifies=["KGCtx.side1Membership", "KGCtx.side2Membership"],
-        ensures=post,
-        canaries={"keeps-every-group": f"len(result[0]) + len(result[1]) == len({ctx}.font.groups)"},
+        ensures=_clauses(ctx, P, f"result[{k - 1}]", f"{ctx}.{m}"),
+        canaries={"keeps-every-group": f"len(result[{k - 1}]) == len({ctx}.font.groups)"},
         locals={"side1Groups": GROUPS, "side2Groups": GROUPS, "side1Membership": Dict(STR, STR), "side2Membership": Dict(STR, STR),
                 "members": Set(STR), "known_members": Set(STR), "original_name_truncated": STR},
-        ghost_vars={"m10": (Dict(STR, STR), "{}"), "m20": (Dict(STR, STR), "{}")},
-        ghost={"side1Groups[name] = tuple(sorted(members))": ["m10 = {**side1Membership}"], "side2Groups[name] = tuple(sorted(members))": ["m20 = {**side2Membership}"]},
+        # ghost: owner = glyph -> full name of the kept group that contains it; m0 / o0 = snapshots before the member loop
+        ghost_vars={"owner": (Dict(STR, STR), "{}"), "m0": (Dict(STR, STR), "{}"), "o0": (Dict(STR, STR), "{}")},
+        ghost={
+            f"side{k}Groups[name] = tuple(sorted(members))": [f"m0 = {{**{M}}}", "o0 = {**owner}"],
+            f"side{k}Membership[member] = name_truncated": ["owner = {**owner, member: name}"],
+        },
+        # the pruning comprehension is the intersection with the exported glyph set (proved once, then used under sorted())
+        hints={"members = {g for g in members if g in allGlyphs}": ["members == font.groups[name] & allGlyphs"]},
         loops={
-            "for (name, members) in font.groups.items()": Loop(index="i", seq="K", invariants=inv),
-            "for member in members#1": memb_loop(1),
-            "for member in members#2": memb_loop(2),
+            "for (name, members) in font.groups.items()": Loop(index="i", seq="K", invariants=_clauses(ctx, P, f"side{k}Groups", M, i="i")),
+            f"for member in members#{k}": memb_loop,
         },
     )
 
 
-_groups_contract("ufo2ft.featureWriters.kernFeatureWriter:KernFeatureWriter.getKerningGroups", "self.context", {"self": Ref("KGWriter")})
-_groups_contract("ufo2ft.featureWriters.kernFeatureWriter2:get_kerning_groups", "context", {"context": Ref("KGCtx")})
+for _k in (1, 2):
+    _groups_contract("ufo2ft.featureWriters.kernFeatureWriter:KernFeatureWriter.getKerningGroups", "self.context", {"self": Ref("KGWriter")}, _k)
+    _groups_contract("ufo2ft.featureWriters.kernFeatureWriter2:get_kerning_groups", "context", {"context": Ref("KGCtx")}, _k)
